@@ -43,6 +43,10 @@ type declT struct {
 	// other id are inputs too), reads every target once while that is in force, then narrows its inputs to the
 	// declaration under test with UpdateInputs: nothing remembered from before may widen what is allowed now
 	shrunk bool
+	// prelude: before the operation under test the controller makes the two legitimate calls that name another
+	// owner (Teardown and Destroy with WithOwner on a sacrificial output of that owner, as the generic cleanup
+	// and destroy controllers do): what an earlier call named must not widen what a later plain call may touch
+	prelude bool
 }
 
 func (d declT) String() string {
@@ -62,6 +66,9 @@ func (d declT) String() string {
 	if d.shrunk {
 		c += "+shrunk-after-reads"
 	}
+	if d.prelude {
+		c += "+after-owner-naming-calls"
+	}
 	return fmt.Sprintf("%s/%s/out-%s%s", kinds[d.kind], id, out, c)
 }
 
@@ -79,6 +86,8 @@ var targets = []target{
 	{"undeclared-type", hx.NS, tUn, "a"},
 	{"input-type-other-ns", "ns2", tIn, "a"},
 }
+
+var sacrificial = target{"sacrificial-output", hx.NS, tOut, "y"}
 
 func mk(t target) resource.Resource {
 	switch t.typ {
@@ -297,6 +306,9 @@ func snapshotAll(ctx context.Context, st state.State) string {
 				panic(err)
 			}
 			for _, r := range l.Items {
+				if r.Metadata().ID() == sacrificial.id {
+					continue // the prelude's own resource: not part of the comparison
+				}
 				out = append(out, ns+":"+hx.Snap(r))
 			}
 		}
@@ -318,6 +330,11 @@ func runCase(x *explore.X, d declT, op string, t target, owner string) (steps in
 		}
 		if owner != "<absent>" {
 			if err := st.Create(ctx, mk(t), state.WithCreateOwner(owner)); err != nil {
+				panic(err)
+			}
+		}
+		if d.prelude {
+			if err := st.Create(ctx, mk(sacrificial), state.WithCreateOwner(other)); err != nil {
 				panic(err)
 			}
 		}
@@ -345,6 +362,10 @@ func runCase(x *explore.X, d declT, op string, t target, owner string) (steps in
 				return
 			}
 			done = true
+			if d.prelude {
+				r.Teardown(ctx, ptrOf(sacrificial), controller.WithOwner(other)) //nolint:errcheck
+				r.Destroy(ctx, ptrOf(sacrificial), controller.WithOwner(other))  //nolint:errcheck
+			}
 			opErr = doOp(ctx, r, st, op, t)
 		}
 		if d.q {
@@ -493,6 +514,9 @@ func build(tier string) []explore.Scenario {
 					out = append(out, scenario(declT{q: kind >= 3, kind: kind, byID: byID, outKind: outKind, cached: cached}))
 					if kind < 3 && !cached {
 						out = append(out, scenario(declT{kind: kind, byID: byID, outKind: outKind, upd: true}))
+					}
+					if outKind >= 0 && !cached {
+						out = append(out, scenario(declT{q: kind >= 3, kind: kind, byID: byID, outKind: outKind, prelude: true}))
 					}
 					if kind < 3 && (outKind == 0 || tier == "thorough") {
 						out = append(out, scenario(declT{kind: kind, byID: byID, outKind: outKind, cached: cached, shrunk: true}))
